@@ -137,8 +137,10 @@ fn check_stack(robot: &RobotSpec, layers_in: &[Layer], j: &[f64; 6], prev: &Prev
                 ctx.class("CONSTRAINT_CENTERED marker through a stack whose robot has off-centre limits");
             }
             if entry == 3 {
+                // (with the CONSTRAINT_CENTERED marker "previous" means the constraint centres: J6 may be the marker's 0.0 or the centre of the J6 range)
+                let centre6 = if p[0].is_nan() { limits.as_ref().map(|l| crate::props::c04::oracle_centres(l)[5]) } else { None };
                 for s in &sols {
-                    ensure!(s[5].to_bits() == p[5].to_bits() || (s[5] == 0.0 && p[5] == 0.0), "5-DOF variants return the caller's J6 through the stack", "{} through {}: J6={} previous J6={}", what, name, s[5], p[5]);
+                    ensure!(s[5].to_bits() == p[5].to_bits() || (s[5] == 0.0 && p[5] == 0.0) || centre6.map(|c6| (s[5] - c6).abs() <= 1e-9).unwrap_or(false), "5-DOF variants return the caller's J6 through the stack", "{} through {}: J6={} previous J6={}", what, name, s[5], p[5]);
                 }
             }
         }
